@@ -35,6 +35,9 @@ def gen_cases(tier, seed):
             if n != 'P5':
                 for sh in range(24):
                     yield {'engine': 'sched', 'shape': n, 'bound': 2, 'fine': False, 'shard': [sh, 24]}
+            if n in ('P2', 'P4'):
+                for sh in range(96):   # three preemptions on the two smallest shapes
+                    yield {'engine': 'sched', 'shape': n, 'bound': 3, 'fine': False, 'shard': [sh, 96]}
 
 
 def prog_of(case):
